@@ -13,7 +13,7 @@ from ._pairs import V
 
 PID = "C17"
 LEVEL = "model_checking"
-WITNESSES = ["late_season_rewatering_of_a_live_canopy", "stress_reduced_growth_coefficient", "ks_strictly_between_0_and_1", "ks_full_stress", "et0_adjustment_switched_off", "cold_coefficient_partial", "heat_coefficient_zero", "gdd_clipped_low", "gdd_clipped_high",
+WITNESSES = ["curves_of_a_prepared_converted_crop", "late_season_rewatering_of_a_live_canopy", "stress_reduced_growth_coefficient", "ks_strictly_between_0_and_1", "ks_full_stress", "et0_adjustment_switched_off", "cold_coefficient_partial", "heat_coefficient_zero", "gdd_clipped_low", "gdd_clipped_high",
              "growth_curve_decay_stage", "decline_curve_reaches_zero", "inverse_checked", "fco2_above_1", "fco2_below_1", "fco2_season_reset_site", "fco2_overridden_sink_strength", "aeration_stress_active", "aeration_switched_off_crop", "growth_curve_starts_in_decay_stage", "fco2_overridden_water_productivity"]
 NONTRIVIAL = WITNESSES
 TOL = 1e-12
@@ -28,6 +28,11 @@ def scenarios(tier, seed=0):
     cal = [n for n in A.calendar_crop_names() if n not in ("SugarCane", "Cassava")]
     for name in (cal[::3] if tier == "quick" else cal):
         yield {"crop": name, "family": "decline_run", "fine": tier != "quick"}
+    # the canopy curves with the parameters of crops as the model PREPARES them: calendar crops converted to thermal time (SwitchGDD=1),
+    # also with overridden phase lengths that put senescence after maturity (a crop cut green) or very close to it
+    for name in (cal[::3] if tier == "quick" else cal):
+        for var in ("switch", "switch_cut_green", "switch_late_senescence"):
+            yield {"crop": name, "family": "canopy", "fine": tier != "quick", "prepared": var}
 
 
 def run(scn):
@@ -55,6 +60,24 @@ def run(scn):
             viol.append(V(clause, None, obs, exp, crop=name, family=fam, sig=[clause], **f))
 
     crop = Crop(name, planting_date="05/01")
+    if scn.get("prepared"):
+        from .. import spec as S
+
+        sen, mat = int(crop.SenescenceCD), int(crop.MaturityCD)
+        kw = {"SwitchGDD": 1}
+        if scn["prepared"] == "switch_cut_green":
+            kw["MaturityCD"] = max(int(crop.HIstartCD) + 5, sen - 10)
+        elif scn["prepared"] == "switch_late_senescence":
+            kw["SenescenceCD"] = mat - 1
+        spec = A.catalogue_spec(name, word="warm", cropkw=kw)
+        try:
+            m = S.make_model(spec)
+            m._initialize()
+            crop = m._param_struct.Seasonal_Crop_List[0]
+            hit("curves_of_a_prepared_converted_crop")
+        except Exception as e:  # noqa: BLE001 - whether such a crop initialises is C16's question
+            res["notes"].append("prepared crop not available: " + type(e).__name__)
+            return res
     if fam == "decline_run":
         from ..driver import run_plain, GX
 
